@@ -683,6 +683,67 @@ class StructFacade:
 _STRUCT = StructFacade()
 
 
+# ---------------------------------------------------------------- range
+class SRange:
+    """`range` as the code under verification sees it: a real range in every respect, except that membership of a SYMBOLIC
+    integer is decided arithmetically (start <= x < stop, on the step grid) - CPython's own fall-back for a non-int operand
+    compares with every element in turn, i.e. one fork per element"""
+
+    __slots__ = ("r",)
+
+    def __init__(self, *a):
+        self.r = a[0] if len(a) == 1 and isinstance(a[0], builtins.range) else builtins.range(*a)
+
+    def __iter__(self):
+        return iter(self.r)
+
+    def __reversed__(self):
+        return reversed(self.r)
+
+    def __len__(self):
+        return len(self.r)
+
+    def __bool__(self):
+        return len(self.r) > 0
+
+    def __getitem__(self, i):
+        v = self.r[i]
+        return SRange(v) if isinstance(v, builtins.range) else v
+
+    def __contains__(self, x):
+        if not _is_proxy_value(x):
+            return x in self.r
+        r = self.r
+        if len(r) == 0:
+            return False
+        lo, hi = (r.start, r[-1]) if r.step > 0 else (r[-1], r.start)
+        inside = bool(x >= lo) and bool(x <= hi)
+        if not inside:
+            return False
+        if abs(r.step) == 1:
+            return True
+        return bool(((x - lo) % abs(r.step)) == 0)
+
+    def __eq__(self, o):
+        return self.r == (o.r if isinstance(o, SRange) else o)
+
+    def __hash__(self):
+        return hash(self.r)
+
+    def __repr__(self):
+        return repr(self.r)
+
+    def index(self, x):
+        return self.r.index(x)
+
+    def count(self, x):
+        return 1 if x in self else 0
+
+    start = property(lambda s: s.r.start)
+    stop = property(lambda s: s.r.stop)
+    step = property(lambda s: s.r.step)
+
+
 # ---------------------------------------------------------------- literals of the code under verification
 def _retype_consts(code):
     """bytes constants of a code object (and of the code objects nested in it) become KBytes: the instruction stream,
@@ -762,6 +823,7 @@ def install(modules=None):
         from .binstr import s_bin
         d["bin"] = s_bin
         d["isinstance"] = s_isinstance
+        d["range"] = SRange
     install_tripwires(modules)
     retype_literals(modules)
     return modules
